@@ -83,7 +83,20 @@ VH_ENTRY vh_justify() {
   w.seg->m_freeJustifies = make_pool();
 #endif
   uint16 gids[NS]; for (unsigned i = 0; i < NS; ++i) gids[i] = w.sl[i]->m_glyphid;
+#ifdef JCONCRETE   /* quick tier for >= 2 slots: the metrics are fixed numbers (advance 10, boxes 0..8, no shifts, width 100) so that the float code
+                      folds away in symex; glyph ids, associations, flags and the link structure stay arbitrary.  What justify does to the links
+                      does not depend on the metrics beyond the branches these values take; the symbolic-metric queries are in the thorough tier */
+  for (unsigned i = 0; i < NS; ++i) {
+    Slot &s = *w.sl[i];
+    s.m_position = Position(10.f * i, 0.f); s.m_shift = Position(0.f, 0.f); s.m_advance = Position(10.f, 0.f);
+    s.m_attach = Position(0.f, 0.f); s.m_with = Position(0.f, 0.f); s.m_just = 0.f;
+  }
+  for (unsigned g = 0; g < NG; ++g) { GlyphFace *gf = const_cast<GlyphFace *>(w.glyphs[g]); gf->m_bbox = Rect(Position(0.f, 0.f), Position(8.f, 8.f)); gf->m_advance = Position(10.f, 0.f); }
+#endif
   float width = nondet_fin(JWBOUND);
+#ifdef JCONCRETE
+  width = 100.f;
+#endif
 #ifdef NEGWIDTH  /* a negative width asks for nothing (no line-end contextuals: SFLAGS == 0): the early exit must leave the line as it found it */
   ASSUME(width < 0);
 #if NEGWIDTH == 2   /* quick tier: one concrete negative width (the symbolic-width query needs ~170 s: the solver, not symex, prunes the dead justification code) */
